@@ -167,5 +167,196 @@ inline Lattice from_congruences(int n, const std::vector<Cg>& cgs) {
 }
 inline bool sat_cg(const Cg& c, const Vec& x) { Q v = dot(c.a, x) - c.b; if (c.m == 0) return v == 0; return is_int(Q(v / c.m)); }
 
+// ======================================================================
+// Extensions used by the gridseq engine (C05): congruence form of a
+// lattice, lattice operations, value set of a linear expression.
+// Everything below only uses the primitives above (own HNF + exact
+// rational linear algebra); nothing is taken from PPL.
+// ======================================================================
+
+inline Lattice lat_empty(int n) { Lattice g; g.n = n; g.empty = true; g.p.assign(n, Q(0)); return g; }
+inline Lattice lat_universe(int n) { Lattice g; g.n = n; g.empty = false; g.p.assign(n, Q(0)); for (int i = 0; i < n; ++i) { Vec e(n); e[i] = 1; g.lines.push_back(e); } return g; }
+inline Lattice lat_point(const Vec& p) { Lattice g; g.n = p.size(); g.empty = false; g.p = p; return g; }
+
+inline Q qabs(const Q& q) { if (q < 0) return Q(-q); return q; }
+// generator (>= 0) of the group aZ + bZ, a, b rational
+inline Q qgcd(const Q& a, const Q& b) {
+  if (a == 0) return qabs(b);
+  if (b == 0) return qabs(a);
+  Z x = abs(a.get_num()) * b.get_den(), y = abs(b.get_num()) * a.get_den(), g;
+  mpz_gcd(g.get_mpz_t(), x.get_mpz_t(), y.get_mpz_t());
+  Q r = Q(g) / Q(Z(a.get_den() * b.get_den())); r.canonicalize(); return r;
+}
+inline Q qfloor(const Q& q) { Z f; mpz_fdiv_q(f.get_mpz_t(), q.get_num_mpz_t(), q.get_den_mpz_t()); return Q(f); }
+
+// Number of independent directions (affine dimension of a non-empty lattice).
+inline int affine_dim(Lattice g) { if (g.empty) return 0; canonicalize(g); return (int) (g.params.size() + g.lines.size()); }
+inline bool is_universe(Lattice g) { if (g.empty) return false; canonicalize(g); return (int) g.lines.size() == g.n; }
+// is direction d in the line space of g?
+inline bool line_member(const Lattice& g, const Vec& d) { Lattice t = g; t.params.clear(); return dir_member(t, d, true); }
+
+// Values taken by a.x + b over the lattice.
+struct ValSet {
+  enum Kind { NONE, CONST, PERIODIC, ALL } kind;   // {} | {base} | {base + k step, k in Z} | Q
+  Q base, step;
+  ValSet() : kind(NONE) {}
+};
+inline ValSet values(const Lattice& g, const Vec& a, const Q& b) {
+  ValSet v; if (g.empty) return v;
+  for (size_t i = 0; i < g.lines.size(); ++i) if (dot(a, g.lines[i]) != 0) { v.kind = ValSet::ALL; return v; }
+  v.base = dot(a, g.p) + b; Q s = 0;
+  for (size_t i = 0; i < g.params.size(); ++i) s = qgcd(s, Q(dot(a, g.params[i])));
+  if (s == 0) { v.kind = ValSet::CONST; return v; }
+  v.kind = ValSet::PERIODIC; v.step = s;
+  v.base -= qfloor(Q(v.base / s)) * s;    // representative in [0, step)
+  v.base.canonicalize();
+  return v;
+}
+inline bool vs_contains(const ValSet& v, const Q& x) {
+  switch (v.kind) {
+  case ValSet::NONE: return false;
+  case ValSet::CONST: return x == v.base;
+  case ValSet::PERIODIC: return is_int(Q((x - v.base) / v.step));
+  default: return true;
+  }
+}
+// does some / every value t of the set satisfy "t in mZ" (m == 0: t == 0)?
+inline void vs_vs_modulus(const ValSet& v, const Q& m, bool& some, bool& every) {
+  some = false; every = true;
+  switch (v.kind) {
+  case ValSet::NONE: return;
+  case ValSet::CONST: some = every = (m == 0 ? v.base == 0 : is_int(Q(v.base / m))); return;
+  case ValSet::ALL: some = true; every = false; return;
+  case ValSet::PERIODIC:
+    if (m == 0) { every = false; some = vs_contains(v, Q(0)); return; }
+    every = is_int(Q(v.base / m)) && is_int(Q(v.step / m));
+    { Q h = qgcd(v.step, m); some = is_int(Q(v.base / h)); }   // base + k step = j m solvable iff gcd(step, m) | base
+    return;
+  }
+}
+
+// Congruence description of a lattice, computed from the canonical generator form:
+// x in L  iff  R(x - p) in Z-span(params), R = reduction modulo the lines.
+inline std::vector<Cg> to_congruences(Lattice g) {
+  std::vector<Cg> out; int n = g.n;
+  if (g.empty) { Cg c; c.a.assign(n, Q(0)); c.b = 1; c.m = 0; out.push_back(c); return out; }
+  canonicalize(g);
+  std::vector<Vec> L = g.lines; std::vector<int> piv = rref(L, n);
+  std::vector<Vec> Y(n, Vec(n + 1));                 // affine forms in x: coefficients, then constant
+  for (int d = 0; d < n; ++d) { Y[d][d] = 1; Y[d][n] = -g.p[d]; }
+  for (size_t i = 0; i < L.size(); ++i) {
+    Vec f = Y[piv[i]];
+    for (int d = 0; d < n; ++d) if (L[i][d] != 0) for (int j = 0; j <= n; ++j) Y[d][j] -= f[j] * L[i][d];
+  }
+  for (size_t i = 0; i < g.params.size(); ++i) {
+    int c = 0; while (g.params[i][c] == 0) ++c;
+    Vec T = Y[c]; for (int j = 0; j <= n; ++j) T[j] /= g.params[i][c];
+    Cg cg; cg.a.assign(T.begin(), T.begin() + n); cg.b = -T[n]; cg.m = 1; out.push_back(cg);
+    for (int d = 0; d < n; ++d) if (g.params[i][d] != 0) for (int j = 0; j <= n; ++j) Y[d][j] -= T[j] * g.params[i][d];
+  }
+  for (int d = 0; d < n; ++d) {
+    bool z = true; for (int j = 0; j <= n; ++j) if (Y[d][j] != 0) z = false;
+    if (z) continue;
+    Cg cg; cg.a.assign(Y[d].begin(), Y[d].begin() + n); cg.b = -Y[d][n]; cg.m = 0; out.push_back(cg);
+  }
+  for (size_t i = 0; i < out.size(); ++i) { for (int d = 0; d < n; ++d) out[i].a[d].canonicalize(); out[i].b.canonicalize(); }
+  return out;
+}
+inline bool sat_all(const std::vector<Cg>& cs, const Vec& x) { for (size_t i = 0; i < cs.size(); ++i) if (!sat_cg(cs[i], x)) return false; return true; }
+
+inline Lattice intersect(const Lattice& A, const Lattice& B) {
+  if (A.empty || B.empty) return lat_empty(A.n);
+  std::vector<Cg> c = to_congruences(A), d = to_congruences(B);
+  c.insert(c.end(), d.begin(), d.end());
+  return from_congruences(A.n, c);
+}
+// smallest lattice containing both
+inline Lattice join(const Lattice& A, const Lattice& B) {
+  if (A.empty) return B; if (B.empty) return A;
+  Lattice E = A;
+  E.params.insert(E.params.end(), B.params.begin(), B.params.end());
+  E.lines.insert(E.lines.end(), B.lines.begin(), B.lines.end());
+  Vec q(A.n); for (int d = 0; d < A.n; ++d) q[d] = B.p[d] - A.p[d];
+  E.params.push_back(q);
+  return E;
+}
+// [dir(A) : dir(C)] for C subseteq A, both non-empty; 0 = infinite (different rank or line space)
+inline Q lattice_index(Lattice A, Lattice C) {
+  canonicalize(A); canonicalize(C);
+  if (A.lines.size() != C.lines.size() || A.params.size() != C.params.size()) return Q(0);
+  Q k = 1;
+  for (size_t i = 0; i < A.params.size(); ++i) {
+    int ca = 0; while (A.params[i][ca] == 0) ++ca;
+    int cc = 0; while (C.params[i][cc] == 0) ++cc;
+    if (ca != cc) return Q(-1);   // cannot happen for a sublattice of full rank
+    k *= C.params[i][cc] / A.params[i][ca];
+  }
+  k.canonicalize(); return k;
+}
+// smallest lattice containing A \ B (closed form, DESIGN C05):
+//   A subseteq B -> empty; A n B empty or of smaller rank / line space -> A;
+//   index 2 -> the complementary coset; index >= 3 -> A.
+inline Lattice difference(const Lattice& A, const Lattice& B, bool* internal_error = 0) {
+  if (A.empty || B.empty) return A;
+  if (included(A, B)) return lat_empty(A.n);
+  Lattice C = intersect(A, B);
+  if (C.empty) return A;
+  Q k = lattice_index(A, C);
+  if (k == 0) return A;
+  if (k < 2 || !is_int(k)) { if (internal_error) *internal_error = true; return A; }
+  if (k != 2) return A;
+  Lattice a = A, c = C; canonicalize(a); canonicalize(c);
+  for (size_t i = 0; i < a.params.size(); ++i) {
+    Vec x = c.p; for (int d = 0; d < a.n; ++d) x[d] += a.params[i][d];
+    if (!member(c, x)) { Lattice r = c; r.p = x; return r; }
+  }
+  if (internal_error) *internal_error = true;
+  return A;
+}
+
+// Affine map x -> M (x,1): M has n_out rows of n_in + 1 entries.
+typedef std::vector<Vec> AffMap;
+inline AffMap identity_map(int n) { AffMap M(n, Vec(n + 1)); for (int i = 0; i < n; ++i) M[i][i] = 1; return M; }
+inline Vec map_apply(const AffMap& M, const Vec& x, bool direction) {
+  Vec y(M.size()); int n = x.size();
+  for (size_t r = 0; r < M.size(); ++r) { Q s = direction ? Q(0) : M[r][n]; for (int j = 0; j < n; ++j) if (M[r][j] != 0 && x[j] != 0) s += M[r][j] * x[j]; y[r] = s; }
+  return y;
+}
+inline Lattice image(const Lattice& L, const AffMap& M) {
+  Lattice R; R.n = M.size(); R.empty = L.empty; R.p.assign(R.n, Q(0));
+  if (L.empty) return R;
+  R.p = map_apply(M, L.p, false);
+  for (size_t i = 0; i < L.params.size(); ++i) R.params.push_back(map_apply(M, L.params[i], true));
+  for (size_t i = 0; i < L.lines.size(); ++i) R.lines.push_back(map_apply(M, L.lines[i], true));
+  return R;
+}
+// { x in Q^n_in : M(x,1) in L }
+inline Lattice preimage(const Lattice& L, const AffMap& M, int n_in) {
+  if (L.empty) return lat_empty(n_in);
+  std::vector<Cg> c = to_congruences(L), out;
+  for (size_t i = 0; i < c.size(); ++i) {
+    Cg g; g.a.assign(n_in, Q(0)); g.b = c[i].b; g.m = c[i].m;
+    for (size_t d = 0; d < M.size(); ++d) if (c[i].a[d] != 0) { for (int j = 0; j < n_in; ++j) g.a[j] += c[i].a[d] * M[d][j]; g.b -= c[i].a[d] * M[d][n_in]; }
+    out.push_back(g);
+  }
+  return from_congruences(n_in, out);
+}
+// Generalized affine relation of the grid domain:
+//   (v, w) in phi  iff  lc.w + ld == ra.v + rb (mod f)  and  w_i = v_i whenever lc_i == 0.
+// image: { w | exists v in L, (v,w) in phi };  preimage: { v | exists w in L, (v,w) in phi }.
+inline Lattice rel_image(const Lattice& L, const Vec& lc, const Q& ld, const Vec& ra, const Q& rb, const Q& f, bool pre) {
+  int n = L.n;
+  if (L.empty) return lat_empty(n);
+  // unknowns: (v, w) in Q^{2n}; the block constrained by L is v (image) or w (preimage)
+  int src = pre ? n : 0, dst = pre ? 0 : n;
+  std::vector<Cg> c = to_congruences(L), sys;
+  for (size_t i = 0; i < c.size(); ++i) { Cg g; g.a.assign(2 * n, Q(0)); for (int d = 0; d < n; ++d) g.a[src + d] = c[i].a[d]; g.b = c[i].b; g.m = c[i].m; sys.push_back(g); }
+  for (int i = 0; i < n; ++i) if (lc[i] == 0) { Cg g; g.a.assign(2 * n, Q(0)); g.a[i] = 1; g.a[n + i] = -1; g.b = 0; g.m = 0; sys.push_back(g); }
+  { Cg g; g.a.assign(2 * n, Q(0)); for (int i = 0; i < n; ++i) { g.a[n + i] += lc[i]; g.a[i] -= ra[i]; } g.b = rb - ld; g.m = qabs(f); sys.push_back(g); }
+  Lattice P = from_congruences(2 * n, sys);
+  AffMap M(n, Vec(2 * n + 1)); for (int i = 0; i < n; ++i) M[i][dst + i] = 1;
+  return image(P, M);
+}
+
 } // namespace ref
 #endif
